@@ -102,7 +102,12 @@ class UntypedAtomic(AnyAtomicType):
                 return op(self.value, other)
             case AnyAtomicType():
                 if hasattr(other, 'make'):
-                    return op(type(other).make(self.value, parser=self.parser), other)
+                    try:
+                        value = type(other).make(self.value, parser=self.parser)
+                    except KeyError as err:
+                        # e.g. a QName with a prefix that is not in scope
+                        raise ValueError(f"no namespace found for prefix {err}") from None
+                    return op(value, other)
                 else:
                     try:
                         value = type(other)(self.value)
